@@ -16,7 +16,7 @@ Grammar (SQLite dialect, as emitted):
   SELECT COUNT(DISTINCT <col>) FROM <table> WHERE <col> IS NOT NULL
   SELECT DISTINCT <col> FROM <table> [WHERE <col> IS NOT NULL] [ORDER BY <col> ASC]
   <col> ::= "identifier" with "" for an embedded quote;  '<literal>' uses '' for an embedded quote.
-Semantics: SQLite's (aggregates skip NULL and give NULL on no rows; LENGTH counts characters; text ordered by
+Semantics: SQLite's (aggregates skip NULL and give NULL on no rows; LENGTH counts characters up to the first NUL; text ordered by
 code point; REGEXP calls the function registered with create_function - here tdda's own regex_matcher).
 Contract checked against the real sqlite3 module on seeded tables by sql_conformance().
 """
@@ -338,11 +338,17 @@ class FakeConnection:
         if kind == 'agg':
             return [(self._agg(sel[1], vals),)]
         if kind == 'lenagg':
-            return [(self._agg(sel[1], [None if v is None else len(v) for v in vals]),)]
+            return [(self._agg(sel[1], [None if v is None else _sql_length(v) for v in vals]),)]
         if kind == 'boolagg':
             m = self._agg(sel[1], [None if v is None else int(v) for v in vals])
             return [(None if m is None else (1 if m != 0 else 0),)]
         raise SQLDoubleUnsupported(kind)
+
+
+def _sql_length(v):
+    """SQLite's LENGTH(text): characters before the first NUL"""
+    n = v.find('\x00')
+    return len(v) if n < 0 else n
 
 
 def _distinct(vals):
